@@ -402,44 +402,36 @@ def run(case, ctx):
             tr.check(ctx, -1, history)
         return
     if fam == "realpool_fork":
-        # the real pool in a parent that has already evaluated, then in a forked child (as worker processes do)
-        import time
-
+        # a fresh interpreter that uses the real process pool from its first call: it evaluates, then forks (as worker
+        # processes do) and the child evaluates again; both must return, with the result of the serial run
         c = [0, 2, 7][i % 3]
         cfg = CONFIGS[c]
-        pred, refa = make_input(ctx.seed, (i * 5 + 1) % N_INPUTS)[cfg["input"]]
-        with pan.real_pool():
-            parent = meta.run_all_groups(cfg, pred.copy(), refa.copy())
-            outp = os.path.join(os.environ.get("VERIF_TMP", "/tmp"), "c15fork_%d_%d.json" % (os.getpid(), i))
-            pid = os.fork()
-            if pid == 0:
-                try:
-                    res = meta.run_all_groups(cfg, pred.copy(), refa.copy())
-                    with open(outp, "w") as fh:
-                        json.dump(harness.jsonable(res), fh)
-                finally:
-                    os._exit(0)
-            deadline = time.monotonic() + 180
-            done = False
-            while time.monotonic() < deadline:
-                w, _ = os.waitpid(pid, os.WNOHANG)
-                if w == pid:
-                    done = True
-                    break
-                time.sleep(0.05)
-            if not done:
-                os.kill(pid, 9)
-                os.waitpid(pid, 0)
-        ctx.count("evaluations", 2)
-        if not done:
-            ctx.viol("evaluation_in_forked_child_never_returned", {"cfg": cfg, "note": "parent had evaluated with the process pool before forking; child did not finish within 180 s"}, features={"what": "fork_after_pool"})
+        k = (i * 5 + 1) % N_INPUTS
+        pred, refa = make_input(ctx.seed, k)[cfg["input"]]
+        serial = meta.run_all_groups(cfg, pred.copy(), refa.copy())
+        outp = os.path.join(os.environ.get("VERIF_TMP", "/tmp"), "c15fork_%d_%d.json" % (os.getpid(), i))
+        env = dict(os.environ, VERIF_REAL_POOL="1")
+        ctx.count("evaluations", 3)
+        try:
+            p = subprocess.run([harness.PY, "-B"] + harness.own_flags() + ["-m", "vf.props.c15", "--forkafterpool", str(ctx.seed), str(c), str(k), outp],
+                               env=env, cwd=harness.VERIF, capture_output=True, text=True, timeout=600)
+        except subprocess.TimeoutExpired:
+            ctx.errors.append({"case": case, "tb": "fork-after-pool helper exceeded the wall-clock watchdog"})
+            return
+        if p.returncode != 0 or not os.path.exists(outp):
+            ctx.errors.append({"case": case, "tb": "fork-after-pool helper failed: " + (p.stderr or "")[-1500:]})
+            return
+        out = json.load(open(outp))
+        if out["child"] is None:
+            ctx.viol("evaluation_in_forked_child_never_returned", {"cfg": cfg, "note": "the parent had evaluated with the process pool before forking; the child did not return within its step budget (%s s) while the parent's own evaluation took %.2f s" % (out["budget_s"], out["parent_s"])},
+                     features={"what": "fork_after_pool"})
             return
         ctx.count("C15.real_pool_judged")
-        if os.path.exists(outp):
-            child = json.load(open(outp))
-            d = results_equal(norm(parent), child, cfg.get("metrics", pan.DEFAULT_METRICS)) if "ERR" not in parent and "ERR" not in child else (None if norm(parent) == child else "ERR")
+        for who in ("parent", "child"):
+            got = out[who]
+            d = results_equal(norm(serial), got, cfg.get("metrics", pan.DEFAULT_METRICS)) if "ERR" not in serial and "ERR" not in got else (None if norm(serial) == got else "ERR")
             if d is not None:
-                ctx.viol("serial_and_pool_differ", {"key": d, "parent": parent, "forked_child": child, "cfg": cfg}, features={"what": "fork_after_pool", "key": str(d).split(":")[-1]})
+                ctx.viol("serial_and_pool_differ", {"key": d, "serial": serial, who: got, "cfg": cfg}, features={"what": "fork_after_pool", "key": str(d).split(":")[-1]})
         return
     if fam == "realpool":
         c = i % len(CONFIGS)
@@ -463,6 +455,45 @@ def run(case, ctx):
             ctx.nontrivial("realpool", c, k)
 
 
+def fork_after_pool_main(seed, c, k, outp):
+    """evaluate with the real pool, fork, evaluate in the child; the child's budget is a generous multiple of the
+    time the parent's own evaluation took (300x, at least 120 s), not an absolute deadline"""
+    import time
+
+    cfg = CONFIGS[c]
+    pred, refa = make_input(seed, k)[cfg["input"]]
+    t0 = time.monotonic()
+    parent = meta.run_all_groups(cfg, pred.copy(), refa.copy())
+    parent_s = time.monotonic() - t0
+    budget = max(120.0, 300 * parent_s)
+    tmp = outp + ".child"
+    pid = os.fork()
+    if pid == 0:
+        try:
+            res = meta.run_all_groups(cfg, pred.copy(), refa.copy())
+            with open(tmp, "w") as fh:
+                json.dump(harness.jsonable(norm(res)), fh)
+        finally:
+            os._exit(0)
+    deadline = time.monotonic() + budget
+    done = False
+    while time.monotonic() < deadline:
+        w, _ = os.waitpid(pid, os.WNOHANG)
+        if w == pid:
+            done = True
+            break
+        time.sleep(0.05)
+    if not done:
+        os.kill(pid, 9)
+        os.waitpid(pid, 0)
+    child = json.load(open(tmp)) if done and os.path.exists(tmp) else None
+    with open(outp, "w") as fh:
+        json.dump({"parent": harness.jsonable(norm(parent)), "child": child, "parent_s": parent_s, "budget_s": budget}, fh)
+    os._exit(0)  # do not run exit handlers of pools a changed library may have left behind (they can block)
+
+
 if __name__ == "__main__":
+    if len(sys.argv) >= 6 and sys.argv[1] == "--forkafterpool":
+        fork_after_pool_main(int(sys.argv[2]), int(sys.argv[3]), int(sys.argv[4]), sys.argv[5])
     if len(sys.argv) >= 4 and sys.argv[1] == "--pristine":
         pristine_main(sys.argv[2], sys.argv[3])
